@@ -149,7 +149,7 @@ def known_class(kind, dkind, start, stop, ss, segshep, sps, extras):
 def run(ctx):
     rng = ctx.rng
     quick = ctx.tier == "quick"
-    _gen.regen(ctx, ["Qarray"])      # Gen/Qarray.v regenerated from the source + Properties_Gen_C17.v (tools/ctrans.py)
+    _gen.regen(ctx, ["Qarray", "Gcd"], group="C17")      # Gen/Qarray.v regenerated from the source + Properties_Gen_C17.v (tools/ctrans.py)
     pr = ctx.coq_properties("Properties/Properties_C17.v")
     exe = ctx.link("c17_qarray", ["c17_qarray.c"], exclude=["ds/qarray.c"])
     drv = ctx.model_driver("c17_driver")
